@@ -18,8 +18,49 @@ def FrameTree (arr : Array ParseNode) (p : Option Nat) (re' : Nat) (E' : Tree) :
     ∀ g, p = some g → ∃ G', arr[g]? = some G' ∧ G'.right = some re' ∧ G'.definition.isGroupLike = true ∧
       ∃ pg, priority G'.definition = some pg
 
+/-- the right child of a node of the tree has that node as its parent -/
+theorem IsTreeAt.right_child_parent {nodes : Array ParseNode} {p link : Option Nat} {t : Tree}
+    (h : IsTreeAt nodes p link t) : ∀ {j i : Nat} {n : ParseNode}, j ∈ t.inorder → nodes[j]? = some n → n.right = some i →
+      ∃ ni, nodes[i]? = some ni ∧ ni.parent = some j := by
+  induction h with
+  | nil p => intro j i n hj; cases hj
+  | node p i0 nd l r hn hpar hl hr ihl ihr =>
+    intro j i n hj hnj hri
+    by_cases hji : j = i0
+    · subst hji
+      rw [hn] at hnj; injection hnj with hnj; subst hnj
+      rw [hri] at hr
+      cases hr with
+      | node _ _ ni _ _ h1 h2 _ _ => exact ⟨ni, h1, h2⟩
+    · simp only [Tree.inorder, List.mem_append, List.mem_cons] at hj
+      rcases hj with hj | hj | hj
+      · exact ihl hj hnj hri
+      · exact absurd hj hji
+      · exact ihr hj hnj hri
+
+/-- unlinking the operator again restores the array: `x.right := tlv`, `tlv.parent := x` -/
+theorem undo_stop {nodes nodes' : Array ParseNode} {n tlv x : Nat} {nx nt : ParseNode} (hne : tlv ≠ x)
+    (hx : nodes[x]? = some nx) (hxr : nx.right = some tlv) (ht : nodes[tlv]? = some nt) (htp : nt.parent = some x)
+    (hg : ∀ j, nodes'[j]? = if j = tlv then (nodes[j]?).map (setParent (some n))
+                      else if j = x then (nodes[j]?).map (setRight (some n)) else nodes[j]?) :
+    ∀ j, (if j = x then (nodes'[j]?).map (setRight (some tlv))
+          else if j = tlv then (nodes'[j]?).map (setParent (some x)) else nodes'[j]?) = nodes[j]? := by
+  intro j
+  by_cases hjx : j = x
+  · subst hjx
+    rw [if_pos rfl, hg j, if_neg (fun e => hne e.symm), if_pos rfl, hx]
+    simp only [Option.map_some, Option.some.injEq]
+    cases nx; simp_all [setRight]
+  · rw [if_neg hjx]
+    by_cases hjt : j = tlv
+    · subst hjt
+      rw [if_pos rfl, hg j, if_pos rfl, ht]
+      simp only [Option.map_some, Option.some.injEq]
+      cases nt; simp_all [setParent]
+    · rw [if_neg hjt, hg j, if_neg hjt, if_neg hjx]
+
 theorem core_effectB {nodes : Array ParseNode} {ug p : Option Nat} {base : Nat} {E : Tree} {re : Nat}
-    (hinv : NInv nodes ug p base E re)
+    (hinv : NInv nodes ug p base E re) (hlastT : E.inorder.getLast? = some (nodes.size - 1))
     (d : Definition) (q : Nat) (rtl : Bool) (right : Option Nat) (hq : priority d = some q) :
     ∃ (nodes' : Array ParseNode) (info : Info),
       parseToken nodes.size d (some (nodes.size - 1)) right nodes ug rtl = .ok (nodes', info) ∧
@@ -27,24 +68,23 @@ theorem core_effectB {nodes : Array ParseNode} {ug p : Option Nat} {base : Nat} 
       (∀ j, j < nodes.size → (nodes'[j]?).map (·.definition) = (nodes[j]?).map (·.definition)) ∧
       (∀ j, j < base → (nodes'[j]?).map (setRight none) = (nodes[j]?).map (setRight none)) ∧
       (∀ j, j + 1 < base → nodes'[j]? = nodes[j]?) ∧
-      (∀ (arr : Array ParseNode) (sub : Tree) (ko : Nat), (∀ j, j < nodes.size → arr[j]? = nodes'[j]?) →
-        (∃ on, arr[nodes.size]? = some on ∧ on.parent = info.parent ∧ on.left = info.left ∧ on.right = right ∧
+      (∀ (arr : Array ParseNode) (sub : Tree) (ko : Nat) {rlink : Option Nat}, (∀ j, j < nodes.size → arr[j]? = nodes'[j]?) →
+        (∃ on, arr[nodes.size]? = some on ∧ on.parent = info.parent ∧ on.left = info.left ∧ on.right = rlink ∧
           tokPos on = ko) →
-        IsTreeAt arr (some nodes.size) right sub →
-        ∃ re', FrameTree arr p re' (insertS (prioAt nodes) q rtl nodes.size ko sub E)) := by
+        IsTreeAt arr (some nodes.size) rlink sub →
+        ∃ re', FrameTree arr p re' (insertS (prioAt nodes) q rtl nodes.size ko sub E)) ∧
+      (stops q rtl (prioAt nodes (nodes.size - 1)) = false → (∀ g, p = some g → info.parent.isSome = true) ∧ ∀ P, info.parent = some P →
+        ∃ l, info.left = some l ∧ l < nodes.size ∧ P < nodes.size ∧ l ≠ P ∧
+          ∀ j, (if j = P then (nodes'[j]?).map (setRight (some l))
+                else if j = l then (nodes'[j]?).map (setParent (some P)) else nodes'[j]?) = nodes[j]?) := by
   have hmemE := hinv.mem
-  obtain ⟨htree, hin, hpos, hframe, hprios⟩ := hinv
-  have hlastT : E.inorder.getLast? = some (nodes.size - 1) := by
-    rw [hin, List.getLast?_range']
-    have : nodes.size - base ≠ 0 := by omega
-    simp only [this, if_false]
-    congr 1; omega
+  obtain ⟨htree, hin, hfirst, hpos, hframe, hprios⟩ := hinv
   have hhead : (rspineUp E).head? = some (nodes.size - 1) := by rw [rspineUp_head, hlastT]
   have hlen : (rspineUp E).length + base ≤ nodes.size := by
-    have := rspineUp_length E; rw [hin] at this; simp at this; omega
-  have hnd : E.inorder.Nodup := by rw [hin]; exact List.nodup_range' ..
-  have hlt_of_mem : ∀ j, j ∈ E.inorder → j < nodes.size := fun j hj => ((hmemE j).mp hj).2
-  have hge_of_mem : ∀ j, j ∈ E.inorder → base ≤ j := fun j hj => ((hmemE j).mp hj).1
+    have := rspineUp_length E; have := hin.length_le' (by omega); omega
+  have hnd : E.inorder.Nodup := hin.nodup
+  have hlt_of_mem : ∀ j, j ∈ E.inorder → j < nodes.size := fun j hj => (hmemE j hj).2
+  have hge_of_mem : ∀ j, j ∈ E.inorder → base ≤ j := fun j hj => (hmemE j hj).1
   -- the walk
   have hwalk : walkLoop nodes q ug rtl (nodes.size + 1) 0 (some (nodes.size - 1)) (some (nodes.size - 1)) =
       .ok ((walkSpec nodes q rtl (some (nodes.size - 1)) (rspineUp E)).1,
@@ -108,14 +148,16 @@ theorem core_effectB {nodes : Array ParseNode} {ug p : Option Nat} {base : Nat} 
     have hsame : ∀ j, j ∉ E.inorder → nodes'[j]? = nodes[j]? := by
       intro j hj; rw [hg j, if_neg (fun (e : j = nodes.size - 1) => hj (e ▸ hbmem))]
     obtain ⟨ho1, ho2⟩ := houter_same nodes' hsame
-    refine ⟨nodes', info, h, by rw [hinfo], ?_, ho1, ho2, ?_⟩
+    refine ⟨nodes', info, h, by rw [hinfo], ?_, ho1, ho2, ?_, ?_⟩
+    rotate_left 2
+    · intro hns; rw [hns] at hstopB; cases hstopB
     · intro j _
       rw [hg j]
       split
       · exact map_def_setRight _ _
       · rfl
-    · intro arr sub ko hlt hon hsub
-      obtain ⟨_, _, t', habs, harr⟩ := walk_insertB nodes q rtl nodes.size ko sub right htree re rfl hnd _ hlastT
+    · intro arr sub ko rlink hlt hon hsub
+      obtain ⟨_, _, t', habs, harr⟩ := walk_insertB nodes q rtl nodes.size ko sub rlink htree re rfl hnd _ hlastT
         hstopB (some (nodes.size - 1))
       refine ⟨re, ?_, hframe_same arr nodes' hlt hsame⟩
       unfold insertS; rw [habs]
@@ -148,7 +190,14 @@ theorem core_effectB {nodes : Array ParseNode} {ug p : Option Nat} {base : Nat} 
         intro j hj
         rw [hg j, if_neg (fun (e : j = tlv) => hj (e ▸ m1)), if_neg (fun (e : j = x) => hj (e ▸ m2))]
       obtain ⟨ho1, ho2⟩ := houter_same nodes' hsame
-      refine ⟨nodes', info, h, by rw [hinfo], ?_, ho1, ho2, ?_⟩
+      refine ⟨nodes', info, h, by rw [hinfo], ?_, ho1, ho2, ?_, ?_⟩
+      rotate_left 2
+      · intro _
+        refine ⟨fun _ _ => (by rw [hinfo]; rfl), ?_⟩
+        intro P hP
+        rw [hinfo] at hP; injection hP with hP; subst hP
+        obtain ⟨nt, hnt, hntp⟩ := htree.right_child_parent m2 hx hxr
+        exact ⟨tlv, by rw [hinfo], hlt_of_mem tlv m1, hlt_of_mem _ m2, ne, undo_stop ne hx hxr hnt hntp hg⟩
       · intro j _
         rw [hg j]
         split
@@ -156,8 +205,8 @@ theorem core_effectB {nodes : Array ParseNode} {ug p : Option Nat} {base : Nat} 
         · split
           · exact map_def_setRight _ _
           · rfl
-      · intro arr sub ko hlt hon hsub
-        obtain ⟨hS, _⟩ := walk_insertS nodes q rtl nodes.size ko sub right htree re rfl hnd hbot
+      · intro arr sub ko rlink hlt hon hsub
+        obtain ⟨hS, _⟩ := walk_insertS nodes q rtl nodes.size ko sub rlink htree re rfl hnd hbot
           (some (nodes.size - 1))
         obtain ⟨tlv', t', nx', e1', _, _, _, _, _, habs, harr⟩ := hS (some tlv) x hw
         injection e1' with e1'; subst e1'
@@ -186,20 +235,22 @@ theorem core_effectB {nodes : Array ParseNode} {ug p : Option Nat} {base : Nat} 
         have hsame : ∀ j, j ∉ E.inorder → nodes'[j]? = nodes[j]? := by
           intro j hj; rw [hg j, if_neg (fun (e : j = re) => hj (e ▸ htree.root_mem))]
         obtain ⟨ho1, ho2⟩ := houter_same nodes' hsame
-        refine ⟨nodes', info, h, by rw [hinfo], ?_, ho1, ho2, ?_⟩
+        refine ⟨nodes', info, h, by rw [hinfo], ?_, ho1, ho2, ?_, ?_⟩
+        rotate_left 2
+        · intro _; exact ⟨fun g hg => (by cases hg), fun P hP => (by rw [hinfo] at hP; cases hP)⟩
         · intro j _
           rw [hg j]
           split
           · exact map_def_setParent _ _
           · rfl
-        · intro arr sub ko hlt hon hsub
-          obtain ⟨_, hN⟩ := walk_insertS nodes q rtl nodes.size ko sub right htree re rfl hnd hbot
+        · intro arr sub ko rlink hlt hon hsub
+          obtain ⟨_, hN⟩ := walk_insertS nodes q rtl nodes.size ko sub rlink htree re rfl hnd hbot
             (some (nodes.size - 1))
           obtain ⟨_, habs, harr⟩ := hN (some re) hw
           refine ⟨nodes.size, ?_, fun g hg => by cases hg⟩
           unfold insertS; rw [habs]
           obtain ⟨on, o1, o2, o3, o4, o5⟩ := hon
-          apply newOpS_isTreeAt (llink := some re) (rlink := right)
+          apply newOpS_isTreeAt (llink := some re) (rlink := rlink)
           · exact ⟨⟨on, o1, by rw [o2, hinfo], by rw [o3, hinfo], o4, o5⟩, hsub⟩
           · apply harr arr
             · intro j hj h1
@@ -214,7 +265,16 @@ theorem core_effectB {nodes : Array ParseNode} {ug p : Option Nat} {base : Nat} 
         have hne : re ≠ g := fun e => hgE (e ▸ htree.root_mem)
         obtain ⟨nodes', info, h⟩ := parseToken_stop_ok (id := nodes.size) (right := right) hq hwalk hne hG hGr hre
         obtain ⟨hinfo, hg⟩ := parseToken_stop hq hwalk hne hG hGr h
-        refine ⟨nodes', info, h, by rw [hinfo], ?_, ?_, ?_, ?_⟩
+        refine ⟨nodes', info, h, by rw [hinfo], ?_, ?_, ?_, ?_, ?_⟩
+        rotate_left 4
+        · intro _
+          refine ⟨fun _ _ => (by rw [hinfo]; rfl), ?_⟩
+          intro P hP
+          rw [hinfo] at hP; injection hP with hP; subst hP
+          obtain ⟨nt, hnt, hntp⟩ : ∃ nt, nodes[re]? = some nt ∧ nt.parent = some g := by
+            cases htree with
+            | node _ _ nd _ _ h1 h2 _ _ => exact ⟨nd, h1, h2⟩
+          exact ⟨re, by rw [hinfo], hre, hgs, hne, undo_stop hne hG hGr hnt hntp hg⟩
         · intro j _
           rw [hg j]
           split
@@ -232,8 +292,8 @@ theorem core_effectB {nodes : Array ParseNode} {ug p : Option Nat} {base : Nat} 
         · intro j hj
           rw [hg j, if_neg (fun e => by have := hge_of_mem re htree.root_mem; omega),
             if_neg (fun e => by have := (hgfacts g rfl).1; omega)]
-        · intro arr sub ko hlt hon hsub
-          obtain ⟨_, hN⟩ := walk_insertS nodes q rtl nodes.size ko sub right htree re rfl hnd hbot
+        · intro arr sub ko rlink hlt hon hsub
+          obtain ⟨_, hN⟩ := walk_insertS nodes q rtl nodes.size ko sub rlink htree re rfl hnd hbot
             (some (nodes.size - 1))
           obtain ⟨_, habs, harr⟩ := hN (some re) hw
           have hGarr : arr[g]? = some (setRight (some nodes.size) G) := by
@@ -241,7 +301,7 @@ theorem core_effectB {nodes : Array ParseNode} {ug p : Option Nat} {base : Nat} 
           refine ⟨nodes.size, ?_, ?_⟩
           · unfold insertS; rw [habs]
             obtain ⟨on, o1, o2, o3, o4, o5⟩ := hon
-            apply newOpS_isTreeAt (llink := some re) (rlink := right)
+            apply newOpS_isTreeAt (llink := some re) (rlink := rlink)
             · exact ⟨⟨on, o1, by rw [o2, hinfo], by rw [o3, hinfo], o4, o5⟩, hsub⟩
             · apply harr arr
               · intro j hj h1
